@@ -17,7 +17,9 @@ THEOREMS = ["C16_terminates", "C16_fuel_bound", "C16_session_terminates", "C16_r
 TRUSTED = [
     "tools/translate/t_filesystem.py (parser + operation table: renders the CURRENT file_system.rs / analysis.rs / vfs.rs into coq/gen/GenFileSystem.v) "
     "and the contracts of coq/model/FsOps.v (HashMap / Vec / VecDeque / loops / salsa inputs / env / disk / trait FileSystem); "
-    "list_includes is tied by shape only (its meaning over the item abstraction is FsOps.ast_list_includes)",
+    "list_includes, Include::index, IndexCtx::{new,current_file_id,push_file,pop_file} and Server::set_file_content are tied by token shape only; "
+    "handlers/document_link.rs exec is tied by translation + proof (group outline: tools/translate/t_handlers.py -> GenHandlersHost.v, "
+    "HostHandlersSource.Links_model_is_source: rendered exec = Host.links_of (include map) (Pipeline.include_items tree) = Host.document_link)",
     "Coq 8.16.1 kernel (vm_compute only inside Examples)",
     "abstraction of the parse: a text is represented by its Include/Class descendants in document order "
     "(computed by the harness from the real parse tree with the public AST API, same scan as list_includes / document_link.rs); "
@@ -205,7 +207,17 @@ def report(ctx, viol, ties, fails):
 
 def run(ctx):
     bindir = vlib.build_harness(False, bins=["hostdrive"])
-    fails = vlib.proof_step(ctx, "TG.Props.C16", THEOREMS, ["props/C16.vo"], TRUSTED, translators=["t_filesystem"])
+    fails = vlib.proof_step(ctx, "TG.Props.C16", THEOREMS, ["props/C16.vo"], TRUSTED,
+                            translators=["t_filesystem", "t_handlers", "t_ast", "t_foldkinds", "t_grammar", "t_lextables", "t_tokens", "t_unicode"])
+    # handlers/document_link.rs `exec`: rendered by group outline's t_handlers.py and proven equal to Host.links_of over
+    # Pipeline.include_items and to Host.document_link (props/HostHandlersSource.v)
+    r2 = vlib.prove("TG.Props.HostHandlersSource", ["Links_model_is_source"], ["props/HostHandlersSource.vo"])
+    fails += r2["failures"]
+    ctx.cov["obligations"] += r2["obligations"]
+    ctx.cov["discharged"] += r2["discharged"]
+    ctx.cov["theorems"] = list(ctx.cov["theorems"]) + ["HostHandlersSource.Links_model_is_source"]
+    ctx.cov["axioms_per_theorem"].update({"HostHandlersSource." + k: v for k, v in r2["assumptions"].items()})
+    ctx.cov["coq_wall_s"] = round(ctx.cov["coq_wall_s"] + r2["wall_s"], 2)
     exe = vlib.build_model("host")
     ctx.cov["unreached_template_reached_on_this_tree"] = H.calibrate(bindir)
     cases, exhaustive, nrand = gen_cases(ctx)
